@@ -52,6 +52,8 @@ struct Req {
     reference: Option<String>,
     /// keep the materialised files (default: remove the directory afterwards)
     keep: bool,
+    /// time budget for this request (0 = the --budget-ms default)
+    budget_ms: u64,
 }
 
 static PHASE: AtomicU8 = AtomicU8::new(0);
@@ -128,7 +130,7 @@ fn sample_worker() -> Vec<Vec<String>> {
     }
     out
 }
-const PHASES: [&str; 5] = ["idle", "parse", "walk", "format", "validate"];
+const PHASES: [&str; 6] = ["idle", "parse", "walk", "format", "validate", "record"];
 
 fn phase(p: u8) {
     PHASE.store(p, Ordering::SeqCst);
@@ -186,6 +188,8 @@ struct Walk {
     max_depth: usize,
     /// hash of the sequence of event kinds (for counting distinct tree shapes)
     shape: u32,
+    /// some GlyphRange node is not the child of a GlyphClass node (a measured fact about the tree)
+    bare_range: bool,
 }
 
 struct KindNames(HashMap<Kind, String>);
@@ -210,7 +214,9 @@ fn walk(tree: &ParseTree, input: &str, keep_concat: bool) -> Walk {
         nnode: 1,
         max_depth: 1,
         shape: 0x811c9dc5,
+        bare_range: false,
     };
+    let mut kinds = vec![root.kind()];
     let mix = |shape: &mut u32, s: &str| {
         for b in s.bytes() {
             *shape ^= b as u32;
@@ -227,6 +233,7 @@ fn walk(tree: &ParseTree, input: &str, keep_concat: bool) -> Walk {
         match top.next() {
             None => {
                 stack.pop();
+                kinds.pop();
                 w.events.push_str(r#",{"e":"F"}"#);
                 mix(&mut w.shape, ")");
             }
@@ -256,6 +263,10 @@ fn walk(tree: &ParseTree, input: &str, keep_concat: bool) -> Walk {
             }
             Some(NodeOrToken::Node(node)) => {
                 w.nnode += 1;
+                if node.kind() == Kind::GlyphRange && kinds.last() != Some(&Kind::GlyphClass) {
+                    w.bare_range = true;
+                }
+                kinds.push(node.kind());
                 let k = names.get(node.kind());
                 let _ = write!(w.events, r#",{{"e":"S","k":{},"n":{},"x":{}}}"#, k, node.text_len(), node.error);
                 mix(&mut w.shape, k);
@@ -435,6 +446,7 @@ fn handle(req: &Req) -> (Value, Option<String>) {
     res["nev"] = json!(w.nev);
     res["depth"] = json!(w.max_depth);
     res["shape"] = json!(w.shape);
+    res["bare_range"] = json!(w.bare_range);
     res["has_errors"] = json!(has_errors);
     res["ndiag"] = json!(dg.len());
     if req.op == "include" {
@@ -480,7 +492,7 @@ fn handle(req: &Req) -> (Value, Option<String>) {
             }
         }
     }
-    phase(0);
+    phase(5);
     res["validate"] = json!(validate);
     res["ms"] = json!(t0.elapsed().as_millis() as u64);
     let rec = if have_input {
@@ -506,6 +518,7 @@ fn handle(req: &Req) -> (Value, Option<String>) {
     } else {
         None
     };
+    phase(0);
     (res, rec)
 }
 
@@ -610,6 +623,7 @@ pub fn run(args: &[String]) -> i32 {
         };
         let tag = req.tag.clone();
         let op = req.op.clone();
+        let budget = if req.budget_ms > 0 { Duration::from_millis(req.budget_ms) } else { budget };
         if tx.send(req).is_err() {
             let _ = writeln!(out, "{}", json!({"tag":tag,"op":op,"outcome":"crash","rec":-1}));
             (tx, rx) = spawn_worker(stack_mb);
